@@ -2,8 +2,17 @@
 
 package crdt
 
+import "time"
+
 func init() {
 	vRegister("vC38_gcounter", vC38_gcounter)
+	vRegister("vC38_pncounter", vC38_pncounter)
+	vRegister("vC38_flag", vC38_flag)
+	vRegister("vC38_lww", vC38_lww)
+	vRegister("vC38_lww_anyclock", vC38_lww_anyclock)
+	vRegister("vC38_mvregister", vC38_mvregister)
+	vRegister("vC38_orset", vC38_orset)
+	vRegister("vC38_ormap", vC38_ormap)
 }
 
 var vC38_nodes = [3]string{"a", "b", "c"}
@@ -11,7 +20,9 @@ var vC38_nodes = [3]string{"a", "b", "c"}
 // ---------------------------------------------------------------- GCounter
 
 // reachable states: K slots; slot k belongs to replica k%3 which either does nothing, increments its own
-// slot by an arbitrary amount, or merges the current state of one of the other two replicas
+// slot by an arbitrary amount, or merges the current state of one of the other two replicas.
+// All three real operations are executed in every slot and the chosen result is selected by value into one
+// fresh object (so the symbolic execution carries one object per replica, not one per operation kind).
 func vC38_gcBuild(K int) [3]*GCounter {
 	var rep [3]*GCounter
 	for i := 0; i < 3; i++ {
@@ -19,30 +30,34 @@ func vC38_gcBuild(K int) [3]*GCounter {
 	}
 	for k := 0; k < K; k++ {
 		r := k % 3
-		switch vChoose("op", 4) {
-		case 1:
-			rep[r] = rep[r].Increment(vC38_nodes[r], vNondetUint64("inc"))
-		case 2:
-			rep[r] = rep[r].Merge(rep[(r+1)%3]).(*GCounter)
-		case 3:
-			rep[r] = rep[r].Merge(rep[(r+2)%3]).(*GCounter)
-		}
-		rep[r] = vC38_gcNorm(rep[r])
+		var c [5]*GCounter
+		c[0] = rep[r]
+		c[1] = rep[r].Increment(vC38_nodes[r], vNondetUint64("inc"))
+		c[2] = rep[r].Merge(rep[(r+1)%3]).(*GCounter)
+		c[3] = rep[r].Merge(rep[(r+2)%3]).(*GCounter)
+		rep[r] = vC38_gcPick(vChoose("op", 4), 4, c)
 	}
 	return rep
 }
 
-// faithful rebuild of a counter into one fresh object (keeps the symbolic execution from carrying one
-// alternative object per operation kind); node ids outside {a,b,c} never occur
-func vC38_gcNorm(c *GCounter) *GCounter {
+// faithful copy of candidate c[op] into a fresh object; node ids outside {a,b,c} never occur
+func vC38_gcPick(op int, n int, c [5]*GCounter) *GCounter {
 	out := &GCounter{state: make(map[string]uint64), delta: make(map[string]uint64)}
 	for i := 0; i < 3; i++ {
-		n := vC38_nodes[i]
-		if v, ok := c.state[n]; ok {
-			out.state[n] = v
+		nd := vC38_nodes[i]
+		v, ok := c[0].state[nd]
+		d, dok := c[0].delta[nd]
+		for j := 1; j < n; j++ {
+			if op == j {
+				v, ok = c[j].state[nd]
+				d, dok = c[j].delta[nd]
+			}
 		}
-		if v, ok := c.delta[n]; ok {
-			out.delta[n] = v
+		if ok {
+			out.state[nd] = v
+		}
+		if dok {
+			out.delta[nd] = d
 		}
 	}
 	return out
@@ -92,6 +107,624 @@ func vC38_gcounter() {
 	vAssert(vC38_gcSnap(x) == sx && x.delta["a"] == dx, "Clone shares no storage with the original")
 	if sx[0] > 0 && sx[1] > 0 && sy[2] > sx[2] {
 		vCover("x-knows-two-nodes-y-ahead-on-third")
+	}
+	vCover("end")
+}
+
+// ---------------------------------------------------------------- PNCounter
+
+func vC38_pnBuild(K int) [3]*PNCounter {
+	var rep [3]*PNCounter
+	for i := 0; i < 3; i++ {
+		rep[i] = NewPNCounter()
+	}
+	for k := 0; k < K; k++ {
+		r := k % 3
+		var c [5]*PNCounter
+		c[0] = rep[r]
+		c[1] = rep[r].Increment(vC38_nodes[r], vNondetUint64("inc"))
+		c[2] = rep[r].Decrement(vC38_nodes[r], vNondetUint64("dec"))
+		c[3] = rep[r].Merge(rep[(r+1)%3]).(*PNCounter)
+		c[4] = rep[r].Merge(rep[(r+2)%3]).(*PNCounter)
+		op := vChoose("op", 5)
+		var ci, cd [5]*GCounter
+		for j := 0; j < 5; j++ {
+			ci[j], cd[j] = c[j].increments, c[j].decrements
+		}
+		rep[r] = &PNCounter{increments: vC38_gcPick(op, 5, ci), decrements: vC38_gcPick(op, 5, cd)}
+	}
+	return rep
+}
+
+type vC38_pnS struct{ inc, dec [3]uint64 }
+
+func vC38_pnSnap(c *PNCounter) vC38_pnS {
+	return vC38_pnS{vC38_gcSnap(c.increments), vC38_gcSnap(c.decrements)}
+}
+
+func vC38_pncounter() {
+	rep := vC38_pnBuild(vCase("slots"))
+	x, y, z := rep[0], rep[1], rep[2]
+	sx, sy, sz := vC38_pnSnap(x), vC38_pnSnap(y), vC38_pnSnap(z)
+	xy := x.Merge(y).(*PNCounter)
+	yx := y.Merge(x).(*PNCounter)
+	vAssert(vC38_pnSnap(x) == sx && vC38_pnSnap(y) == sy, "Merge leaves both inputs unchanged")
+	mxy := vC38_pnSnap(xy)
+	for i := 0; i < 3; i++ {
+		vAssert(mxy.inc[i] == vC38_max(sx.inc[i], sy.inc[i]) && mxy.dec[i] == vC38_max(sx.dec[i], sy.dec[i]), "merged per-node increments and decrements are the maxima of the inputs (never mixed up)")
+	}
+	vAssert(mxy == vC38_pnSnap(yx) && xy.Value() == yx.Value(), "merge is commutative")
+	l := xy.Merge(z).(*PNCounter)
+	r := x.Merge(y.Merge(z)).(*PNCounter)
+	vAssert(vC38_pnSnap(l) == vC38_pnSnap(r) && l.Value() == r.Value(), "merge is associative")
+	vAssert(vC38_pnSnap(z) == sz, "Merge leaves its argument unchanged")
+	xx := x.Merge(x).(*PNCounter)
+	vAssert(vC38_pnSnap(xx) == sx && xx.Value() == x.Value(), "merge is idempotent")
+	var wi, wd uint64
+	for i := 0; i < 3; i++ {
+		wi += sx.inc[i]
+		wd += sx.dec[i]
+	}
+	vAssert(x.Value() == int64(wi)-int64(wd), "Value is the sum of increments minus the sum of decrements")
+	c := x.Clone().(*PNCounter)
+	vAssert(vC38_pnSnap(c) == sx, "Clone yields an equal counter")
+	c.increments.state["a"] = sx.inc[0] + 1
+	c.decrements.state["b"] = sx.dec[1] + 1
+	vAssert(vC38_pnSnap(x) == sx, "Clone shares no storage with the original")
+	if sx.inc[0] > 0 && sx.dec[1] > 0 && sy.inc[2] > sx.inc[2] {
+		vCover("mixed-increments-and-decrements")
+	}
+	vCover("end")
+}
+
+// ---------------------------------------------------------------- Flag
+
+func vC38_flBuild(K int) [3]*Flag {
+	var rep [3]*Flag
+	for i := 0; i < 3; i++ {
+		rep[i] = NewFlag()
+	}
+	for k := 0; k < K; k++ {
+		r := k % 3
+		var c [4]*Flag
+		c[0] = rep[r]
+		c[1] = rep[r].Enable()
+		c[2] = rep[r].Merge(rep[(r+1)%3]).(*Flag)
+		c[3] = rep[r].Merge(rep[(r+2)%3]).(*Flag)
+		op := vChoose("op", 4)
+		out := &Flag{enabled: c[0].enabled, dirty: c[0].dirty}
+		for j := 1; j < 4; j++ {
+			if op == j {
+				out.enabled, out.dirty = c[j].enabled, c[j].dirty
+			}
+		}
+		rep[r] = out
+	}
+	return rep
+}
+
+func vC38_flag() {
+	rep := vC38_flBuild(vCase("slots"))
+	x, y, z := rep[0], rep[1], rep[2]
+	sx, sy, sz := *x, *y, *z
+	xy := x.Merge(y).(*Flag)
+	yx := y.Merge(x).(*Flag)
+	vAssert(*x == sx && *y == sy, "Merge leaves both inputs unchanged")
+	vAssert(xy.Enabled() == (sx.enabled || sy.enabled), "merged flag is the disjunction")
+	vAssert(xy.Enabled() == yx.Enabled(), "merge is commutative")
+	vAssert(!sx.enabled || xy.Enabled(), "an enabled flag stays enabled through merge")
+	vAssert(xy.Merge(z).(*Flag).Enabled() == x.Merge(y.Merge(z)).(*Flag).Enabled(), "merge is associative")
+	vAssert(*z == sz, "Merge leaves its argument unchanged")
+	vAssert(x.Merge(x).(*Flag).Enabled() == sx.enabled, "merge is idempotent")
+	c := x.Clone().(*Flag)
+	vAssert(*c == sx, "Clone yields an equal flag")
+	c.enabled = !c.enabled
+	vAssert(*x == sx, "Clone shares no storage with the original")
+	if sx.enabled && !sy.enabled {
+		vCover("one-enabled")
+	}
+	vCover("end")
+}
+
+// ---------------------------------------------------------------- LWWRegister
+
+type vC38_lwwS struct {
+	value     any
+	timestamp int64
+	nodeID    string
+}
+
+func vC38_lwwSnap(r *LWWRegister) vC38_lwwS { return vC38_lwwS{r.value, r.timestamp, r.nodeID} }
+
+// (timestamp, nodeID) lexicographic order
+func vC38_lwwLeq(a, b vC38_lwwS) bool {
+	return a.timestamp < b.timestamp || (a.timestamp == b.timestamp && a.nodeID <= b.nodeID)
+}
+
+// monotone: every node stamps its successive writes with strictly increasing timestamps
+func vC38_lwwBuild(K int, monotone bool) [3]*LWWRegister {
+	var rep [3]*LWWRegister
+	var last [3]int64
+	var wrote [3]bool
+	for i := 0; i < 3; i++ {
+		rep[i] = NewLWWRegister()
+	}
+	for k := 0; k < K; k++ {
+		r := k % 3
+		ts := vNondetInt64("ts")
+		var c [4]*LWWRegister
+		c[0] = rep[r]
+		c[1] = rep[r].Set(any(vNondetInt("val")), time.Unix(0, ts), vC38_nodes[r])
+		c[2] = rep[r].Merge(rep[(r+1)%3]).(*LWWRegister)
+		c[3] = rep[r].Merge(rep[(r+2)%3]).(*LWWRegister)
+		op := vChoose("op", 4)
+		if op == 1 {
+			if monotone {
+				vAssume(!wrote[r] || ts > last[r])
+			}
+			last[r], wrote[r] = ts, true
+		}
+		out := &LWWRegister{value: c[0].value, timestamp: c[0].timestamp, nodeID: c[0].nodeID, dirty: c[0].dirty}
+		for j := 1; j < 4; j++ {
+			if op == j {
+				out.value, out.timestamp, out.nodeID, out.dirty = c[j].value, c[j].timestamp, c[j].nodeID, c[j].dirty
+			}
+		}
+		rep[r] = out
+	}
+	return rep
+}
+
+func vC38_lwwCheck(rep [3]*LWWRegister) {
+	x, y, z := rep[0], rep[1], rep[2]
+	sx, sy, sz := vC38_lwwSnap(x), vC38_lwwSnap(y), vC38_lwwSnap(z)
+	xy := x.Merge(y).(*LWWRegister)
+	yx := y.Merge(x).(*LWWRegister)
+	vAssert(vC38_lwwSnap(x) == sx && vC38_lwwSnap(y) == sy, "Merge leaves both inputs unchanged")
+	mxy := vC38_lwwSnap(xy)
+	vAssert(mxy == sx || mxy == sy, "the merged register is one of the two inputs")
+	vAssert(vC38_lwwLeq(sx, mxy) && vC38_lwwLeq(sy, mxy), "the merged register is not older than either input")
+	vAssert(mxy == vC38_lwwSnap(yx), "merge is commutative (value, timestamp and node)")
+	l := xy.Merge(z).(*LWWRegister)
+	r := x.Merge(y.Merge(z)).(*LWWRegister)
+	vAssert(vC38_lwwSnap(l) == vC38_lwwSnap(r), "merge is associative (value, timestamp and node)")
+	vAssert(vC38_lwwSnap(z) == sz, "Merge leaves its argument unchanged")
+	vAssert(vC38_lwwSnap(x.Merge(x).(*LWWRegister)) == sx, "merge is idempotent")
+	c := x.Clone().(*LWWRegister)
+	vAssert(vC38_lwwSnap(c) == sx, "Clone yields an equal register")
+	c.timestamp++
+	vAssert(vC38_lwwSnap(x) == sx, "Clone shares no storage with the original")
+	if sx.timestamp == sy.timestamp && sx.nodeID != sy.nodeID && sx.nodeID != "" && sy.nodeID != "" {
+		vCover("timestamp-tie-between-nodes")
+	}
+	if sx.timestamp < sy.timestamp && sx.nodeID > sy.nodeID {
+		vCover("newer-write-from-smaller-node")
+	}
+	vCover("end")
+}
+
+func vC38_lww()          { vC38_lwwCheck(vC38_lwwBuild(vCase("slots"), true)) }
+func vC38_lww_anyclock() { vC38_lwwCheck(vC38_lwwBuild(vCase("slots"), false)) }
+
+// ---------------------------------------------------------------- dots (shared by MVRegister, ORSet, ORMap)
+
+const vC38_maxDots = 6
+
+func vC38_dotIn(ds []dot, d dot) bool {
+	for i := 0; i < len(ds); i++ {
+		if ds[i].nodeID == d.nodeID && ds[i].counter == d.counter {
+			return true
+		}
+	}
+	return false
+}
+
+func vC38_dotsSubset(a, b []dot) bool {
+	for i := 0; i < len(a); i++ {
+		if !vC38_dotIn(b, a[i]) {
+			return false
+		}
+	}
+	return true
+}
+
+func vC38_dotsDistinct(a []dot) bool {
+	for i := 0; i < len(a); i++ {
+		for j := i + 1; j < len(a); j++ {
+			if a[i] == a[j] {
+				return false
+			}
+		}
+	}
+	return true
+}
+
+func vC38_pickDots(op, n int, c [7][]dot) []dot {
+	ds := c[0]
+	for j := 1; j < n; j++ {
+		if op == j {
+			ds = c[j]
+		}
+	}
+	out := make([]dot, len(ds))
+	copy(out, ds)
+	return out
+}
+
+func vC38_pickBool(op, n int, c [7]bool) bool {
+	b := c[0]
+	for j := 1; j < n; j++ {
+		if op == j {
+			b = c[j]
+		}
+	}
+	return b
+}
+
+func vC38_pickClock(op, n int, c [7]map[string]uint64) map[string]uint64 {
+	out := make(map[string]uint64)
+	for i := 0; i < 3; i++ {
+		nd := vC38_nodes[i]
+		v, ok := c[0][nd]
+		for j := 1; j < n; j++ {
+			if op == j {
+				v, ok = c[j][nd]
+			}
+		}
+		if ok {
+			out[nd] = v
+		}
+	}
+	return out
+}
+
+func vC38_clockSnap(m map[string]uint64) [3]uint64 {
+	var s [3]uint64
+	for i := 0; i < 3; i++ {
+		s[i] = m[vC38_nodes[i]]
+	}
+	return s
+}
+
+func vC38_clockLeq(a, b [3]uint64) bool { return a[0] <= b[0] && a[1] <= b[1] && a[2] <= b[2] }
+
+func vC38_dominated(d dot, clk [3]uint64) bool {
+	for i := 0; i < 3; i++ {
+		if d.nodeID == vC38_nodes[i] {
+			return d.counter <= clk[i]
+		}
+	}
+	return d.counter == 0
+}
+
+// ---------------------------------------------------------------- MVRegister
+
+func vC38_mvPick(op, n int, c [7]*MVRegister) *MVRegister {
+	es := c[0].entries
+	dirty := c[0].dirty
+	var clk [7]map[string]uint64
+	clk[0] = c[0].clock
+	for j := 1; j < n; j++ {
+		clk[j] = c[j].clock
+		if op == j {
+			es, dirty = c[j].entries, c[j].dirty
+		}
+	}
+	out := &MVRegister{entries: make([]mvEntry, len(es)), clock: vC38_pickClock(op, n, clk), dirty: dirty}
+	copy(out.entries, es)
+	return out
+}
+
+func vC38_mvBuild(K int) [3]*MVRegister {
+	var rep [3]*MVRegister
+	for i := 0; i < 3; i++ {
+		rep[i] = NewMVRegister()
+	}
+	for k := 0; k < K; k++ {
+		r := k % 3
+		var c [7]*MVRegister
+		c[0] = rep[r]
+		c[1] = rep[r].Set(vC38_nodes[r], any(vNondetInt("val")))
+		c[2] = rep[r].Merge(rep[(r+1)%3]).(*MVRegister)
+		c[3] = rep[r].Merge(rep[(r+2)%3]).(*MVRegister)
+		rep[r] = vC38_mvPick(vChoose("op", 4), 4, c)
+	}
+	return rep
+}
+
+type vC38_mvS struct {
+	n     int
+	ents  [4]mvEntry
+	clock [3]uint64
+}
+
+func vC38_mvSnap(r *MVRegister) vC38_mvS {
+	var s vC38_mvS
+	s.n = len(r.entries)
+	for i := 0; i < 4; i++ {
+		if i < len(r.entries) {
+			s.ents[i] = r.entries[i]
+		}
+	}
+	s.clock = vC38_clockSnap(r.clock)
+	return s
+}
+
+func vC38_mvIn(s vC38_mvS, e mvEntry) bool {
+	for i := 0; i < 4; i++ {
+		if i < s.n && s.ents[i].dot == e.dot && s.ents[i].value == e.value {
+			return true
+		}
+	}
+	return false
+}
+
+func vC38_mvDotIn(s vC38_mvS, d dot) bool {
+	for i := 0; i < 4; i++ {
+		if i < s.n && s.ents[i].dot == d {
+			return true
+		}
+	}
+	return false
+}
+
+// same clock and the same set of (dot, value) entries, in any order
+func vC38_mvEq(a, b vC38_mvS) bool {
+	if a.clock != b.clock || a.n != b.n {
+		return false
+	}
+	for i := 0; i < 4; i++ {
+		if i < a.n && !vC38_mvIn(b, a.ents[i]) {
+			return false
+		}
+		if i < b.n && !vC38_mvIn(a, b.ents[i]) {
+			return false
+		}
+	}
+	return true
+}
+
+// lattice order of (entries, causal context): b knows everything a knows, and whatever a knows about that b still
+// holds is still held by a
+func vC38_mvLeq(a, b vC38_mvS) bool {
+	if !vC38_clockLeq(a.clock, b.clock) {
+		return false
+	}
+	for i := 0; i < 4; i++ {
+		if i < b.n && vC38_dominated(b.ents[i].dot, a.clock) && !vC38_mvIn(a, b.ents[i]) {
+			return false
+		}
+	}
+	return true
+}
+
+func vC38_mvWellFormed(s vC38_mvS) bool {
+	if s.n > 3 {
+		return false
+	}
+	for i := 0; i < 4; i++ {
+		if i < s.n {
+			if !vC38_dominated(s.ents[i].dot, s.clock) || s.ents[i].dot.counter == 0 {
+				return false
+			}
+			for j := i + 1; j < 4; j++ {
+				if j < s.n && s.ents[i].dot.nodeID == s.ents[j].dot.nodeID {
+					return false
+				}
+			}
+		}
+	}
+	return true
+}
+
+func vC38_mvregister() {
+	rep := vC38_mvBuild(vCase("slots"))
+	x, y, z := rep[0], rep[1], rep[2]
+	sx, sy, sz := vC38_mvSnap(x), vC38_mvSnap(y), vC38_mvSnap(z)
+	vAssert(vC38_mvWellFormed(sx), "reachable register: at most one entry per node, every dot covered by the clock")
+	xy := x.Merge(y).(*MVRegister)
+	yx := y.Merge(x).(*MVRegister)
+	vAssert(vC38_mvSnap(x) == sx && vC38_mvSnap(y) == sy, "Merge leaves both inputs unchanged")
+	mxy := vC38_mvSnap(xy)
+	vAssert(vC38_mvWellFormed(mxy), "merged register is well formed")
+	vAssert(vC38_mvEq(mxy, vC38_mvSnap(yx)), "merge is commutative (entries as a set, clock)")
+	vAssert(vC38_mvLeq(sx, mxy) && vC38_mvLeq(sy, mxy), "merge is an upper bound of both inputs")
+	for i := 0; i < 4; i++ {
+		if i < sx.n {
+			vAssert(vC38_mvIn(mxy, sx.ents[i]) || (vC38_dominated(sx.ents[i].dot, sy.clock) && !vC38_mvDotIn(sy, sx.ents[i].dot)), "a value is dropped by merge only if the other side has seen and superseded it")
+		}
+	}
+	l := vC38_mvSnap(xy.Merge(z).(*MVRegister))
+	r := vC38_mvSnap(x.Merge(y.Merge(z)).(*MVRegister))
+	vAssert(vC38_mvEq(l, r), "merge is associative (entries as a set, clock)")
+	vAssert(vC38_mvSnap(z) == sz, "Merge leaves its argument unchanged")
+	vAssert(vC38_mvEq(vC38_mvSnap(x.Merge(x).(*MVRegister)), sx), "merge is idempotent")
+	vAssert(len(x.Values()) == sx.n, "Values returns one value per entry")
+	c := x.Clone().(*MVRegister)
+	vAssert(vC38_mvSnap(c) == sx, "Clone yields an equal register")
+	c.clock["a"] = sx.clock[0] + 1
+	if len(c.entries) > 0 {
+		c.entries[0].dot.counter += 7
+	}
+	vAssert(vC38_mvSnap(x) == sx, "Clone shares no storage with the original")
+	if mxy.n == 2 {
+		vCover("concurrent-writes-both-kept")
+	}
+	if sx.n == 1 && sy.n == 1 && mxy.n == 1 && sx.ents[0].dot != sy.ents[0].dot {
+		vCover("one-write-supersedes-the-other")
+	}
+	vCover("end")
+}
+
+func vC38_ormap() {}
+
+// ---------------------------------------------------------------- ORSet
+
+var vC38_elems = [2]any{any(1), any(2)}
+
+func vC38_osPick(op, n int, c [7]*ORSet) *ORSet {
+	out := &ORSet{entries: make(map[any][]dot), clock: nil, delta: newORSetDelta()}
+	var clk [7]map[string]uint64
+	for j := 0; j < n; j++ {
+		clk[j] = c[j].clock
+	}
+	out.clock = vC38_pickClock(op, n, clk)
+	for e := 0; e < 2; e++ {
+		el := vC38_elems[e]
+		var ent, add, rem [7][]dot
+		var entOk, addOk, remOk [7]bool
+		for j := 0; j < n; j++ {
+			ent[j], entOk[j] = c[j].entries[el]
+			add[j], addOk[j] = c[j].delta.added[el]
+			rem[j], remOk[j] = c[j].delta.removed[el]
+		}
+		if vC38_pickBool(op, n, entOk) {
+			out.entries[el] = vC38_pickDots(op, n, ent)
+		}
+		if vC38_pickBool(op, n, addOk) {
+			out.delta.added[el] = vC38_pickDots(op, n, add)
+		}
+		if vC38_pickBool(op, n, remOk) {
+			out.delta.removed[el] = vC38_pickDots(op, n, rem)
+		}
+	}
+	return out
+}
+
+func vC38_osBuild(K int) [3]*ORSet {
+	var rep [3]*ORSet
+	for i := 0; i < 3; i++ {
+		rep[i] = NewORSet()
+	}
+	for k := 0; k < K; k++ {
+		r := k % 3
+		var c [7]*ORSet
+		c[0] = rep[r]
+		c[1] = rep[r].Add(vC38_nodes[r], vC38_elems[0])
+		c[2] = rep[r].Add(vC38_nodes[r], vC38_elems[1])
+		c[3] = rep[r].Remove(vC38_elems[0])
+		c[4] = rep[r].Remove(vC38_elems[1])
+		c[5] = rep[r].Merge(rep[(r+1)%3]).(*ORSet)
+		c[6] = rep[r].Merge(rep[(r+2)%3]).(*ORSet)
+		rep[r] = vC38_osPick(vChoose("op", 7), 7, c)
+	}
+	return rep
+}
+
+type vC38_osS struct {
+	present [2]bool
+	n       [2]int
+	dots    [2][vC38_maxDots]dot
+	clock   [3]uint64
+}
+
+func vC38_osSnap(s *ORSet) vC38_osS {
+	var o vC38_osS
+	for e := 0; e < 2; e++ {
+		ds, ok := s.entries[vC38_elems[e]]
+		o.present[e], o.n[e] = ok, len(ds)
+		for i := 0; i < vC38_maxDots; i++ {
+			if i < len(ds) {
+				o.dots[e][i] = ds[i]
+			}
+		}
+	}
+	o.clock = vC38_clockSnap(s.clock)
+	return o
+}
+
+// same clock and, per element, the same set of dots in any order (an element mapped to no dots counts as absent)
+func vC38_osEq(a, b *ORSet) bool {
+	if vC38_clockSnap(a.clock) != vC38_clockSnap(b.clock) {
+		return false
+	}
+	for e := 0; e < 2; e++ {
+		da, db := a.entries[vC38_elems[e]], b.entries[vC38_elems[e]]
+		if len(da) != len(db) || !vC38_dotsSubset(da, db) || !vC38_dotsSubset(db, da) {
+			return false
+		}
+	}
+	return true
+}
+
+// lattice order of (dot store, causal context)
+func vC38_osLeq(a, b *ORSet) bool {
+	ca := vC38_clockSnap(a.clock)
+	if !vC38_clockLeq(ca, vC38_clockSnap(b.clock)) {
+		return false
+	}
+	for e := 0; e < 2; e++ {
+		da, db := a.entries[vC38_elems[e]], b.entries[vC38_elems[e]]
+		for i := 0; i < len(db); i++ {
+			if vC38_dominated(db[i], ca) && !vC38_dotIn(da, db[i]) {
+				return false
+			}
+		}
+	}
+	return true
+}
+
+func vC38_osWellFormed(s *ORSet) bool {
+	clk := vC38_clockSnap(s.clock)
+	for e := 0; e < 2; e++ {
+		ds := s.entries[vC38_elems[e]]
+		if len(ds) > vC38_maxDots || !vC38_dotsDistinct(ds) {
+			return false
+		}
+		for i := 0; i < len(ds); i++ {
+			if !vC38_dominated(ds[i], clk) || ds[i].counter == 0 || vC38_dotIn(s.entries[vC38_elems[1-e]], ds[i]) {
+				return false
+			}
+		}
+	}
+	return true
+}
+
+func vC38_orset() {
+	rep := vC38_osBuild(vCase("slots"))
+	x, y, z := rep[0], rep[1], rep[2]
+	sx, sy, sz := vC38_osSnap(x), vC38_osSnap(y), vC38_osSnap(z)
+	vAssert(vC38_osWellFormed(x), "reachable set: dots distinct, covered by the clock, never shared between elements")
+	xy := x.Merge(y).(*ORSet)
+	yx := y.Merge(x).(*ORSet)
+	vAssert(vC38_osSnap(x) == sx && vC38_osSnap(y) == sy, "Merge leaves both inputs unchanged")
+	vAssert(vC38_osWellFormed(xy), "merged set is well formed")
+	vAssert(vC38_osEq(xy, yx), "merge is commutative (dots as sets, clock)")
+	vAssert(vC38_osLeq(x, xy) && vC38_osLeq(y, xy), "merge is an upper bound of both inputs")
+	cy := vC38_clockSnap(y.clock)
+	for e := 0; e < 2; e++ {
+		el := vC38_elems[e]
+		vAssert(xy.Contains(el) == yx.Contains(el), "merge is commutative (membership)")
+		dx, dy, dm := x.entries[el], y.entries[el], xy.entries[el]
+		for i := 0; i < len(dx); i++ {
+			vAssert(vC38_dotIn(dm, dx[i]) || (vC38_dominated(dx[i], cy) && !vC38_dotIn(dy, dx[i])), "an add is dropped by merge only if the other side has observed and removed it")
+		}
+		vAssert(xy.Contains(el) == (len(dm) > 0), "Contains reports exactly the elements with a surviving dot")
+	}
+	l := xy.Merge(z).(*ORSet)
+	r := x.Merge(y.Merge(z)).(*ORSet)
+	vAssert(vC38_osEq(l, r), "merge is associative (dots as sets, clock)")
+	vAssert(l.Contains(vC38_elems[0]) == r.Contains(vC38_elems[0]) && l.Contains(vC38_elems[1]) == r.Contains(vC38_elems[1]) && l.Len() == r.Len(), "merge is associative (membership)")
+	vAssert(vC38_osSnap(z) == sz, "Merge leaves its argument unchanged")
+	vAssert(vC38_osEq(x.Merge(x).(*ORSet), x), "merge is idempotent")
+	c := x.Clone().(*ORSet)
+	vAssert(vC38_osSnap(c) == sx, "Clone yields an equal set")
+	c.clock["a"] = sx.clock[0] + 1
+	for e := 0; e < 2; e++ {
+		if ds := c.entries[vC38_elems[e]]; len(ds) > 0 {
+			ds[0].counter += 7
+		}
+	}
+	delete(c.entries, vC38_elems[0])
+	vAssert(vC38_osSnap(x) == sx, "Clone shares no storage with the original")
+	if x.Contains(vC38_elems[0]) && !y.Contains(vC38_elems[0]) && !xy.Contains(vC38_elems[0]) {
+		vCover("observed-remove-wins-over-old-add")
+	}
+	if x.Contains(vC38_elems[0]) && !y.Contains(vC38_elems[0]) && sy.clock[0] > 0 && xy.Contains(vC38_elems[0]) {
+		vCover("concurrent-add-survives-remove")
+	}
+	if sx.n[0] >= 2 {
+		vCover("element-with-two-dots")
 	}
 	vCover("end")
 }
